@@ -31,6 +31,31 @@ pub proof fn lemma_flatten_member<'a, T>(s: Seq<&'a Option<T>>, q: int)
         assert(flatten_opts(s)[k] == flatten_opts(s.drop_last())[k]);
     }
 }
+// every element of the flattened sequence is the payload of some Some item
+pub proof fn lemma_flatten_origin<'a, T>(s: Seq<&'a Option<T>>, k: int)
+    requires 0 <= k < flatten_opts(s).len()
+    ensures exists|q: int| 0 <= q < s.len() && (#[trigger] *s[q]) is Some && flatten_opts(s)[k] == &(s[q]->Some_0)
+    decreases s.len()
+{
+    if s.len() > 0 {
+        let r = flatten_opts(s.drop_last());
+        match s.last() {
+            Some(x) => {
+                if k == r.len() { assert(*s[s.len() - 1] is Some && flatten_opts(s)[k] == &(s[s.len() - 1]->Some_0)); }
+                else {
+                    lemma_flatten_origin(s.drop_last(), k);
+                    let q = choose|q: int| 0 <= q < s.drop_last().len() && (#[trigger] *s.drop_last()[q]) is Some && r[k] == &(s.drop_last()[q]->Some_0);
+                    assert(*s[q] is Some && flatten_opts(s)[k] == &(s[q]->Some_0));
+                }
+            }
+            None => {
+                lemma_flatten_origin(s.drop_last(), k);
+                let q = choose|q: int| 0 <= q < s.drop_last().len() && (#[trigger] *s.drop_last()[q]) is Some && r[k] == &(s.drop_last()[q]->Some_0);
+                assert(*s[q] is Some && flatten_opts(s)[k] == &(s[q]->Some_0));
+            }
+        }
+    }
+}
 // Iterator::flatten over an iterator of &Option<T>: yields the payloads of the Some items, in order
 #[verifier::external_body]
 pub fn v_flatten<'a, T, I: Iterator<Item = &'a Option<T>>>(i: I) -> (r: VSeqIter<&'a T>)
